@@ -284,30 +284,18 @@ impl MT107 {
         parser: &mut crate::parser::MessageParser,
     ) -> Result<(Option<Field50InstructingParty>, Option<Field50Creditor>), crate::errors::ParseError>
     {
-        // Detect which variant of field 50 is present
-        let remaining = parser.remaining();
-        let trimmed = remaining.trim_start_matches(|c: char| c.is_whitespace());
-
-        // Check for instructing party variants (C, L)
-        if trimmed.starts_with(":50C:") {
-            let instructing_party =
-                parser.parse_optional_variant_field::<Field50InstructingParty>("50")?;
-            return Ok((instructing_party, None));
-        }
-        if trimmed.starts_with(":50L:") {
-            let instructing_party =
-                parser.parse_optional_variant_field::<Field50InstructingParty>("50")?;
-            return Ok((instructing_party, None));
-        }
-
-        // Check for creditor variants (A, K)
-        if trimmed.starts_with(":50A:") || trimmed.starts_with(":50K:") {
-            let creditor = parser.parse_optional_variant_field::<Field50Creditor>("50")?;
-            return Ok((None, creditor));
-        }
-
-        // No field 50 present
-        Ok((None, None))
+        // Field 50 can occur twice: instructing party (C/L), then creditor (A/K)
+        let instructing_party = if parser.next_field_has_variant("50", &["C", "L"]) {
+            parser.parse_optional_variant_field::<Field50InstructingParty>("50")?
+        } else {
+            None
+        };
+        let creditor = if parser.next_field_has_variant("50", &["A", "K"]) {
+            parser.parse_optional_variant_field::<Field50Creditor>("50")?
+        } else {
+            None
+        };
+        Ok((instructing_party, creditor))
     }
 
     // ========================================================================
